@@ -59,20 +59,24 @@ def check(ctx):
         ctx.traces_validated += 1
     # ---- (2) end to end
     end_to_end(ctx, thorough)
+    end_to_end(ctx, thorough, bind="127.0.0.1")
 
 
-def end_to_end(ctx, thorough):
+def end_to_end(ctx, thorough, bind=""):
+    """bind: "" = the default wildcard sockets (IPv4 exporters arrive with 16-octet IPv4-mapped addresses);
+    "127.0.0.1" = IPv4 sockets (exporters arrive with 4-octet addresses)"""
     binary = ctx.go_build_bin("vflow")
-    d = ctx.subdir("e2e15")
+    d = ctx.subdir("e2e15" + bind.replace(".", "_"))
     sink = e2e.Sink()
     sink.start()
-    col = e2e.Collector(ctx, binary, d, sink.port, workers=4)
+    extra = "".join("%s-addr: %s\n" % (p, bind) for p in ("ipfix", "netflow9", "netflow5", "sflow")) if bind else ""
+    col = e2e.Collector(ctx, binary, d, sink.port, workers=4, extra_cfg=extra)
     senders = e2e.Senders(8)
     srcs = sorted(senders.socks)
     rng = ctx.rng
     acked = {"ipfix": [], "netflow9": []}      # (src, template id, version) acknowledged in some incarnation
     try:
-        cycles = 7 if thorough else 4
+        cycles = (7 if thorough else 4) if not bind else (5 if thorough else 3)
         for cyc in range(cycles):
             if cyc in (2, 5):
                 # an older, much longer file (here: unparsable) is in place: the collector starts with a fresh cache, and the
@@ -82,7 +86,8 @@ def end_to_end(ctx, thorough):
                         fh.write(b'{"Cache":[' + b"x" * 300000)
                 acked = {"ipfix": [], "netflow9": []}
             col.start()
-            scenario = ["steady", "burst", "idle", "burst", "steady", "idle", "burst"][cyc % 7]
+            scenario = (["sustained", "burst", "idle", "steady", "sustained", "idle", "burst"] if not bind else
+                        ["burst", "sustained", "steady", "idle", "sustained"])[cyc % (5 if bind else 7)]
             sig = signal.SIGINT if cyc % 2 else signal.SIGTERM
             # after a restart: data for every acknowledged template, WITHOUT templates, is decoded at once
             if cyc > 0:
@@ -97,12 +102,12 @@ def end_to_end(ctx, thorough):
                         raise vlib.Infra("UDPCount did not reach the datagrams sent after restart")
                     want += len(dg)
                 ok = e2e.wait_until(lambda: len(sink.snapshot()) - before >= want, timeout=10)
-                ctx.count(["restart", cyc, ctx.seed])
+                ctx.count(["restart", cyc, ctx.seed, bind])
                 if not ok:
                     lines = sink.snapshot()[before:]
                     ctx.violation("after restart %d, data for %d templates acknowledged before the signal was sent without templates: only %d "
                                   "messages were published (stderr: %s)" % (cyc, want, len(lines), col.err_tail(300).replace("\n", " | ")),
-                                  {"cycle": cyc, "acknowledged": want, "published": len(lines)}, key="templates-lost")
+                                  {"cycle": cyc, "acknowledged": want, "published": len(lines), "bind": bind or "wildcard"}, key="templates-lost")
                 else:
                     # and decoded with the acknowledged version
                     lines = sink.snapshot()[before:]
@@ -126,7 +131,8 @@ def end_to_end(ctx, thorough):
                     if ok:
                         acked[proto] = [a for a in acked[proto] if (a[0], a[1]) != (src, tid)] + [(src, tid, v)]
             # traffic in flight when the signal arrives
-            n = {"idle": 0, "steady": 60, "burst": 400}[scenario]
+            # "sustained": the exporters do not pause for the signal - datagrams keep arriving on every port until the process is gone
+            n = {"idle": 0, "steady": 60, "burst": 400, "sustained": 10 ** 6}[scenario]
             offset = rng.choice([0.0, 0.01, 0.05, 0.2]) if scenario != "idle" else 0.0
             import threading
             stop_sending = threading.Event()
@@ -148,7 +154,7 @@ def end_to_end(ctx, thorough):
                             senders.send(src, col.ports[proto], [0, 0, 0, 5, 0, 0, 0, 1, 10, 0, 0, 1] + [0] * 12 + [0, 0, 0, 0])
                     except OSError:
                         return
-                    if scenario == "steady":
+                    if scenario in ("steady", "sustained"):
                         time.sleep(0.004)
             th = threading.Thread(target=traffic, daemon=True)
             th.start()
@@ -156,8 +162,8 @@ def end_to_end(ctx, thorough):
             rc, secs = col.stop(sig, wait=10)
             stop_sending.set()
             th.join(timeout=5)
-            ctx.count(["shutdown", scenario, cyc, offset, ctx.seed])
-            case = {"cycle": cyc, "scenario": scenario, "signal": sig.name, "offset_s": offset}
+            ctx.count(["shutdown", scenario, cyc, offset, ctx.seed, bind])
+            case = {"cycle": cyc, "scenario": scenario, "signal": sig.name, "offset_s": offset, "bind": bind or "wildcard"}
             err = col.err_tail(6000)
             if "panic" in err or "fatal error" in err:
                 ctx.violation("the collector panicked on %s (%s traffic): %s" % (sig.name, scenario, err[-700:].replace("\n", " | ")), case, key="e2e-panic")
@@ -174,7 +180,7 @@ def end_to_end(ctx, thorough):
                     assert doc["ShardNo"] == 32 and len(doc["Cache"]) == 32
                 except Exception as e:
                     ctx.violation("after %s the cache file %s is not a complete document: %s" % (sig.name, f, e), case, key="e2e-cachefile")
-            ctx.extra.setdefault("shutdowns", []).append({"scenario": scenario, "signal": sig.name, "offset": offset, "exit": rc, "secs": round(secs, 2)})
+            ctx.extra.setdefault("shutdowns", []).append({"bind": bind or "wildcard", "scenario": scenario, "signal": sig.name, "offset": offset, "exit": rc, "secs": round(secs, 2)})
         ctx.sample({"cycles": cycles, "acknowledged_templates": {k: len(v) for k, v in acked.items()}, "shutdowns": ctx.extra.get("shutdowns")})
     finally:
         col.kill()
